@@ -66,8 +66,14 @@ func (it sItem) String() string {
 		for _, s := range it.Sub {
 			parts = append(parts, s.String())
 		}
+		if len(parts) > 8 {
+			return fmt.Sprintf("coll/p%d[%d elements: %s,..,%s]", it.W, len(parts), parts[0], parts[len(parts)-1])
+		}
 		return fmt.Sprintf("coll/p%d[%s]", it.W, strings.Join(parts, ","))
 	default:
+		if len(it.B) > 48 {
+			return fmt.Sprintf("%s/p%d(%d bytes %x..%x)", it.Kind, it.W, len(it.B), it.B[:8], it.B[len(it.B)-4:])
+		}
 		return fmt.Sprintf("%s/p%d(%x)", it.Kind, it.W, it.B)
 	}
 }
@@ -103,6 +109,18 @@ func genItem(rt *rapid.T, depth int, label string) sItem {
 			max = 700 // longer than typical internal buffer sizes, and > 255 is refused for a 1-byte prefix
 		}
 		it.B = rapid.SliceOfN(rapid.Byte(), 0, max).Draw(rt, label+".bytes")
+		if rapid.IntRange(0, 7).Draw(rt, label+".boundary") == 0 {
+			// lengths around the sign bit and the capacity of the one- and two-byte prefixes
+			n := rapid.SampledFrom([]int{127, 128, 129, 200, 254, 255, 256, 32767, 32768, 65535, 65536}).Draw(rt, label+".blen")
+			if it.W == 1 && n > 255 {
+				n = 255
+			}
+			if it.W == 2 && n > 65535 {
+				n = 65535
+			}
+			fill := rapid.Byte().Draw(rt, label+".fill")
+			it.B = bytes.Repeat([]byte{fill}, n)
+		}
 		if it.W == 1 && len(it.B) > 255 {
 			it.B = it.B[:255]
 		}
@@ -118,6 +136,15 @@ func genItem(rt *rapid.T, depth int, label string) sItem {
 		n := rapid.IntRange(0, 4).Draw(rt, label+".cn")
 		for i := 0; i < n; i++ {
 			it.Sub = append(it.Sub, genItem(rt, depth+1, fmt.Sprintf("%s.%d", label, i)))
+		}
+		if rapid.IntRange(0, 11).Draw(rt, label+".manyElems") == 0 {
+			// element counts around the sign bit / capacity of the one-byte prefix (one-byte elements keep the case small)
+			n = rapid.SampledFrom([]int{127, 128, 129, 200, 255}).Draw(rt, label+".bcn")
+			v := uint64(rapid.IntRange(0, 255).Draw(rt, label+".ev"))
+			it.Sub = it.Sub[:0]
+			for i := 0; i < n; i++ {
+				it.Sub = append(it.Sub, sItem{Kind: "num", W: 1, U: (v + uint64(i)) & 0xff, LenTyp: lenTypes[1]})
+			}
 		}
 	}
 	it.LenTyp = lenTypes[it.W]
@@ -275,7 +302,7 @@ func readItem(r io.Reader, it sItem) error {
 
 func TestStreamRoundTrip(t *testing.T) {
 	const check = "stream_roundtrip"
-	stats.Rule(check, "rapid draws a sequence of stream items (Write/Read[T] for bool, 8..64-bit ints and [32|36|38]byte, WriteBytes/ReadBytes, ...WithSize for all four prefix widths, WriteObject/ReadObject(+WithSize) with the typeutils codecs, WriteCollection/ReadCollection/PeekSize with nested items) written to a stream.ByteBuffer (empty; in half of the cases also a pre-sized one and one rewritten from the start over 1..300 existing bytes, which must give the same bytes and end offset) and read back through every reader of the family {ByteBuffer.Reader, bytes.Reader, iotest.OneByteReader, HalfReader, DataErrReader, drawn chunk-size schedule incl. zero-length reads}; each item must be read back equal and the reader must end exactly at the written length. Distinct by item list; non-trivial = at least one item longer than one byte is split by a reader (every case: OneByteReader) and the sequence has >= 2 item kinds")
+	stats.Rule(check, "rapid draws a sequence of stream items (Write/Read[T] for bool, 8..64-bit ints and [32|36|38]byte, WriteBytes/ReadBytes, ...WithSize for all four prefix widths, WriteObject/ReadObject(+WithSize) with the typeutils codecs, WriteCollection/ReadCollection/PeekSize with nested items; lengths and element counts are also drawn around 127/128, 255/256, 32767/32768 and 65535/65536) written to a stream.ByteBuffer (empty; in half of the cases also a pre-sized one and one rewritten from the start over 1..300 existing bytes, which must give the same bytes and end offset) and read back through every reader of the family {ByteBuffer.Reader, bytes.Reader, iotest.OneByteReader, HalfReader, DataErrReader, drawn chunk-size schedule incl. zero-length reads}; each item must be read back equal and the reader must end exactly at the written length. Distinct by item list; non-trivial = at least one item longer than one byte is split by a reader (every case: OneByteReader) and the sequence has >= 2 item kinds")
 	rapid.Check(t, func(rt *rapid.T) {
 		n := rapid.IntRange(1, 6).Draw(rt, "n")
 		items := make([]sItem, n)
@@ -358,6 +385,12 @@ func TestStreamRoundTrip(t *testing.T) {
 		for k := range kinds {
 			labels = append(labels, "item:"+k)
 		}
-		stats.Case(check, len(kinds) >= 2 && len(data) > 1, fmt.Sprint(items), func() any { return map[string]any{"items": fmt.Sprint(items), "bytes": hex.EncodeToString(data)} }, labels...)
+		stats.Case(check, len(kinds) >= 2 && len(data) > 1, fmt.Sprint(items), func() any {
+			shown := data
+			if len(shown) > 256 {
+				shown = shown[:256]
+			}
+			return map[string]any{"items": fmt.Sprint(items), "bytes": hex.EncodeToString(shown), "length": len(data)}
+		}, labels...)
 	})
 }
